@@ -1,6 +1,7 @@
 import Std.Data.HashMap
 import QV.Drive.Util
 import QV.Model.Front
+import QV.Model.ArithStaged
 import QV.Model.Sem
 import QV.Model.SemX
 import QV.Model.SemT
@@ -67,6 +68,14 @@ def freeOf (inputs : List String) (defs : List (String × BExp)) : List String :
 
 def strsJ (l : List String) : Json := Json.arr (l.map Json.str).toArray
 
+/-- the rows a request asks for: the field `rows` (a list of row numbers `k`: argument bit `i` = bit `i` of `k`;
+programs over `Qint[12]` / `Qint[16]` arguments have up to `2^32` and more rows and are evaluated on sampled
+ones) or, without it, every row `0 … 2^n - 1` -/
+def rowsOf (j : Json) (n : Nat) : List Nat :=
+  match j.getObjVal? "rows" with
+  | .ok (.arr a) => a.toList.filterMap fun x => x.getNat?.toOption
+  | _ => List.range (2 ^ n)
+
 /-- The table `QV.Front.retTable` gives (row k: argument bit i = bit i of k; the definitions run in
 order; one character per return bit; an unbound symbol reads `false`), computed with the environment
 kept as a hash map of Booleans already evaluated.  `QV.Front.runDefs` - the function the theorems speak
@@ -74,9 +83,10 @@ of - represents the environment as one closure per definition; its compiled form
 take time growing far faster than the length of the list (0.7 s for 56 definitions, 57 s for the 145 of
 a three-times unrolled if / elif; apparently a lookup through the closure chain evaluates the
 definitions it passes again).  Same function, each definition evaluated once per row. -/
-def retTableFast (argBits retBits : List String) (defs : List (String × BExp)) : String := Id.run do
+def retTableFast (argBits retBits : List String) (defs : List (String × BExp))
+    (ks : List Nat := List.range (2 ^ argBits.length)) : String := Id.run do
   let mut out := ""
-  for k in [0:2 ^ argBits.length] do
+  for k in ks do
     let mut env : Std.HashMap String Bool := {}
     let mut i := 0
     for a in argBits do
@@ -104,18 +114,30 @@ def translateOp (j : Json) : R Json := do
   | .error e => pure (Json.mkObj [("error", Json.str e)])
   | .ok (defs, events) =>
     let withTable := (j.getObjValAs? Bool "table").toOption.getD true
-    let table := if withTable then retTableFast argBits retBits defs else ""
+    let sampled := (j.getObjVal? "rows").toOption.isSome
+    let ks := rowsOf j argBits.length
+    let table := if withTable then retTableFast argBits retBits defs ks else ""
     -- tie of the fast evaluator to the function the theorems speak of, on every short definition list
-    if withTable && defs.length ≤ 48 && table != retTable argBits retBits defs then
+    if withTable && !sampled && defs.length ≤ 48 && table != retTable argBits retBits defs then
       throw "retTableFast differs from QV.Front.retTable on this definition list"
+    if withTable && sampled && defs.length ≤ 48 then
+      let viaRunDefs := String.join (ks.map fun k =>
+        let ρ := runDefs defs (assignment argBits k)
+        String.ofList (retBits.map fun r => if ρ r then '1' else '0'))
+      if table != viaRunDefs then
+        throw "retTableFast differs from QV.Front.runDefs on the sampled rows of this definition list"
+    -- `table = false` marks a program whose expressions are too large to walk as trees (a product of wide
+    -- operands: the bits of the schoolbook product share their sub-expressions, a tree walk is exponential):
+    -- then only acceptance, the bit names and the events are answered
     pure (Json.mkObj [
       ("argbits", strsJ argBits), ("retbits", strsJ retBits),
       ("defined", strsJ (defs.map (·.1))),
-      ("free", strsJ (freeOf argBits defs)),
+      ("free", if withTable then strsJ (freeOf argBits defs) else Json.null),
       ("events", strsJ events),
-      ("table", Json.str table)])
+      ("table", if withTable then Json.str table else Json.null)])
 
-/-- operand of `c01.arith`: ["var", name, w] or ["const", w, v] (QintImp.const of the w-bit class) -/
+/-- operand of `c01.arith`: ["var", name, w], ["mvar", name, w, mask] or ["const", w, v] (QintImp.const of the
+w-bit class) -/
 def parseOperand (j : Json) : R (Nat × List BExp × List String) := do
   let a ← j.getArr?
   match ← a[0]!.getStr? with
@@ -124,11 +146,41 @@ def parseOperand (j : Json) : R (Nat × List BExp × List String) := do
     let w ← a[2]!.getNat?
     let names := (List.range w).map fun i => s!"{n}.{i}"
     pure (w, names.map .sym, names)
+  | "mvar" =>
+    -- a variable masked by a literal: the bits outside the mask are `False` (what `a & mask` translates to)
+    let n ← a[1]!.getStr?
+    let w ← a[2]!.getNat?
+    let mask ← a[3]!.getNat?
+    let names := (List.range w).map fun i => s!"{n}.{i}"
+    pure (w, (List.range w).map fun i => if mask.testBit i then .sym s!"{n}.{i}" else .ff, names)
   | "const" =>
     let w ← a[1]!.getNat?
     let v ← a[2]!.getNat?
     pure (w, qintConst w v, [])
   | t => throw s!"bad operand {t}"
+
+/-- one character per expression and row, rows `ks` (row `k`: `names[i]` = bit `i` of `k`) -/
+def tableOn (names : List String) (ks : List Nat) (es : List BExp) : String := Id.run do
+  let mut out := ""
+  for k in ks do
+    let ρ := assignment names k
+    for e in es do
+      out := out.push (if e.eval ρ then '1' else '0')
+  return out
+
+/-- the table of `qMul` on the rows `ks` through `QV.Arith.qMulLit` (the product evaluated row by row under the
+assignment: `QV/Model/ArithStaged.lean`); also the number of result bits -/
+def mulTableLit (names : List String) (ks : List Nat) (cl cr : Bool) (nl nr : Nat) (l r : List BExp) :
+    Nat × String := Id.run do
+  let mut out := ""
+  let mut n := (qMulLit (fun _ => false) cl cr nl nr l r).2.length
+  for k in ks do
+    let ρ := assignment names k
+    let bits := (qMulLit ρ cl cr nl nr l r).2
+    n := bits.length
+    for e in bits do
+      out := out.push (if e.eval ρ then '1' else '0')
+  return (n, out)
 
 def arithOp (j : Json) : R Json := do
   let q := getQuirks j
@@ -137,6 +189,18 @@ def arithOp (j : Json) : R Json := do
   let (nr, r, rn) ← parseOperand (← j.getObjVal? "r")
   let k := (j.getObjValAs? Nat "k").toOption.getD 0
   let names := ln ++ rn
+  let sampled := (j.getObjVal? "rows").toOption.isSome
+  let ks := rowsOf j names.length
+  if fn == "mul" && !q.mulEvenConst then
+    -- the product: evaluated row by row (the trees of a wide product cannot be walked); where they can
+    -- (operands padded to at most 5 bits) both evaluations are computed and must agree
+    let (n, table) := mulTableLit names ks (isConstBits l) (isConstBits r) nl nr l r
+    if max l.length r.length ≤ 5 && max nl nr ≤ 5 then
+      let viaTrees := tableOn names ks (qMul q (isConstBits l) (isConstBits r) nl nr l r).2
+      if viaTrees != table then
+        throw "qMulLit (row-by-row evaluation) differs from the expressions of qMul on this request"
+    return Json.mkObj [("n", toJson n), ("names", strsJ names), ("table", Json.str table),
+                       ("staged", Json.bool true)]
   let out : List BExp ← match fn with
     | "eq" => pure [qEq l r] | "neq" => pure [qNeq l r]
     | "gt" => pure [qGt q l r] | "lt" => pure [qLt q l r]
@@ -151,7 +215,7 @@ def arithOp (j : Json) : R Json := do
     | "fill" => pure (fill k l) | "crop" => pure (crop k l)
     | f => throw s!"bad fn {f}"
   pure (Json.mkObj [("n", toJson out.length), ("names", strsJ names),
-                    ("table", Json.str (truthTable names out))])
+                    ("table", Json.str (if sampled then tableOn names ks out else truthTable names out))])
 
 /-- `c01.semw`: the Lean reference semantics `QV.Sem.semProgT` (the widening of `QV.Sem.semProg` to tuples and
 `Qchar`) of a program on every assignment of its argument bits: one string of return bits per row, `null`
@@ -166,10 +230,11 @@ def semwOp (j : Json) : R Json := do
   let prog : Prog := ⟨args, ret, body⟩
   -- the widened semantics `SemT` (QV/Model/SemT.lean: tuples, Qchar); it extends `SemW` (theorem
   -- `semProgT_extends_semProg`), which is re-checked here on every row where `SemW` gives a meaning
-  let mut rowsL : List Json := []
+  let mut rowsL : Array Json := #[]
   let mut wDefined := 0
   let mut wellAll := true
-  for k in List.range (2 ^ argBits.length) do
+  let ks := rowsOf j argBits.length
+  for k in ks do
     let ρ := assignment argBits k
     let tv := QV.Sem.semProgT prog ρ
     match QV.Sem.semProg prog ρ with
@@ -181,9 +246,9 @@ def semwOp (j : Json) : R Json := do
       | none => throw s!"SemT undefined where SemW is defined (row {k})"
     | none => pure ()
     if !(QV.Sem.wellProg prog ρ) then wellAll := false
-    rowsL := rowsL ++ [match tv with
+    rowsL := rowsL.push (match tv with
       | some v => Json.str v.bitString
-      | none => Json.null]
+      | none => Json.null)
   let rows := rowsL
   -- the exact semantics `Sem`, widened (QV/Model/SemXT.lean; it is `QV/Model/SemX.lean` on bool / Qint programs,
   -- re-checked here on every row): per row `[python value, k, claimed bits, inRange]` (`k = null`: in range;
@@ -192,8 +257,8 @@ def semwOp (j : Json) : R Json := do
   let claimStr (l : List (Option Bool)) : String := String.ofList (l.map fun c => match c with
     | none => '?'
     | some b => bitChar b)
-  let mut exactL : List Json := []
-  for k in List.range (2 ^ argBits.length) do
+  let mut exactL : Array Json := #[]
+  for k in ks do
     let ρ := assignment argBits k
     let xt := QV.Sem.semProgXT prog ρ
     match QV.Sem.semProgX prog ρ with
@@ -204,7 +269,7 @@ def semwOp (j : Json) : R Json := do
       | _ => throw s!"SemXT undefined or not a leaf where SemX is defined (row {k})"
       if QV.Sem.inRangeProg prog ρ != QV.Sem.inRangeProgT prog ρ then throw s!"inRange differs on row {k}"
     | none => pure ()
-    exactL := exactL ++ [match xt with
+    exactL := exactL.push (match xt with
       | some (.leaf xv) =>
         let x : Json := match xv.v with
           | .bool b => toJson (if b then (1 : Int) else 0)
@@ -214,10 +279,10 @@ def semwOp (j : Json) : R Json := do
           | some n => toJson n
         Json.arr #[x, kk, Json.str (claimStr xv.claim), Json.bool (QV.Sem.inRangeProgT prog ρ)]
       | some v => Json.arr #[Json.null, Json.null, Json.str (claimStr v.claim), Json.bool (QV.Sem.inRangeProgT prog ρ)]
-      | none => Json.null]
+      | none => Json.null)
   let exact := exactL
-  pure (Json.mkObj [("argbits", strsJ argBits), ("rows", Json.arr rows.toArray),
-                    ("exact", Json.arr exact.toArray),
+  pure (Json.mkObj [("argbits", strsJ argBits), ("rows", Json.arr rows),
+                    ("exact", Json.arr exact),
                     -- rows on which the bool / Qint semantics `SemW` alone gives a meaning; the hypotheses of
                     -- `C01_body_struct` (`structLine`, `wellProg` on every row) and of `C01_body` (`straightLine`)
                     ("semw_rows_defined", toJson wDefined),
